@@ -474,6 +474,7 @@ impl Property for C03 {
             "network_level_feedback",
             "network_level_stateful",
             "network_level_step_via_learn",
+            "network_level_optimizer_reattached",
             "slot_ge_2pow18_elements",
             "tiny_nonzero_hyperparameter",
         ]
